@@ -242,7 +242,9 @@ def corpus_descs():
                     [{"f": items[:2], "t": 9}, {"f": items[1:3], "t": 0}]))
         out.append(([cc.param("s", dict(k="value", dop=item(term), dflt=None)),
                      cc.param("t", dict(k="value", dop=u8(), dflt=None))], False,
-                    [{"s": items[0], "t": 5}, {"s": items[2], "t": 5}]))
+                    [{"s": items[0], "t": 5}, {"s": items[2], "t": 5},
+                     # a value of exactly MAX-LENGTH (no terminator) followed by a byte equal to the terminator
+                     {"s": items[2], "t": 0}, {"s": items[2], "t": 0xFF}]))
     # string objects with an encoding which is illegal for strings (odxraise at run time)
     for bt, en in ((cc.BASCII, 1), (cc.BUTF8, 4), (cc.BUNI, 0)):
         out.append(([cc.param("p1", dict(k="value", dop=cc.simple(cc.std(bt, 16, en)), dflt=None))], False,
